@@ -120,6 +120,20 @@ impl Prop for C05 {
     }
 
     fn generate(rng: &mut Rng, tier: Tier, lane: &str) -> Case {
+        if lane == "miri" {
+            // tiny configurations: Miri's scheduler picks the interleaving (also inside the spin)
+            return Case {
+                lane: lane.to_string(),
+                threads: rng.random_range(1..=3u8),
+                n: rng.random_range(0..=6),
+                strategy: Strategy::Random,
+                sseed: rng.random(),
+                chaos_level: 0,
+                slow: vec![],
+                pause_every: 0,
+                pause_us: 0,
+            };
+        }
         if lane == "sched" {
             let threads = rng.random_range(1..=4u8);
             let n = match rng.random_range(0..10) {
@@ -188,6 +202,9 @@ impl Prop for C05 {
     }
 
     fn check(c: &Case, obs: &mut Obs) {
+        if c.lane == "miri" {
+            return check_plain(c, obs);
+        }
         let s = sched::sched();
         s.ensure_installed();
         let w = c.threads as usize;
@@ -416,4 +433,60 @@ impl Prop for C05 {
         obs.add("items_through_pipe", c.n as u64);
         obs.note(json!({"steps": steps, "choices_not_first_enabled": nontrivial_choices, "items": r.out.len()}));
     }
+}
+
+/// no controller, no delay injection, no clocks: used under Miri, whose scheduler and data-race /
+/// deadlock detection are the instruments
+fn check_plain(c: &Case, obs: &mut Obs) {
+    let counts: Arc<Vec<AtomicU32>> = Arc::new((0..c.n).map(|_| AtomicU32::new(0)).collect());
+    let pulled = Arc::new(AtomicUsize::new(0));
+    let dropped = Arc::new(AtomicBool::new(false));
+    let src = Source {
+        i: 0,
+        n: c.n,
+        pulled: pulled.clone(),
+        dropped: dropped.clone(),
+    };
+    let counts2 = counts.clone();
+    let f: text_utils::data::Pipeline<usize, u64> = Arc::new(move |x: usize| {
+        if let Some(cn) = counts2.get(x) {
+            cn.fetch_add(1, Ordering::SeqCst);
+        }
+        tag(x)
+    });
+    let mut pipe = src.pipe(f, c.threads);
+    let mut out = vec![];
+    let mut got_none = false;
+    while out.len() < c.n + 2 {
+        match pipe.next() {
+            Some(v) => out.push(v),
+            None => {
+                got_none = true;
+                break;
+            }
+        }
+    }
+    let extra_none = got_none && pipe.next().is_none();
+    drop(pipe);
+    let expect: Vec<u64> = (0..c.n).map(tag).collect();
+    obs.check(out == expect, "output/differs", || {
+        format!("W={} n={}: got {:?} expected {:?}", c.threads, c.n, out, expect)
+    });
+    obs.check(got_none && extra_none, "iteration-does-not-end", || {
+        format!("W={} n={}: got_none={got_none} extra_none={extra_none}", c.threads, c.n)
+    });
+    let bad = counts.iter().filter(|c| c.load(Ordering::SeqCst) != 1).count();
+    obs.check(bad == 0, "processed-not-exactly-once", || {
+        format!("{bad} items not processed exactly once")
+    });
+    // workers exit after the end of the iteration: wait (yielding) for the upstream Drop
+    let mut spins = 0u32;
+    while !dropped.load(Ordering::SeqCst) && spins < 2_000_000 {
+        std::thread::yield_now();
+        spins += 1;
+    }
+    if !dropped.load(Ordering::SeqCst) {
+        obs.inconclusive("upstream iterator not dropped after 2e6 yields");
+    }
+    obs.nontrivial_if(c.threads >= 2 && c.n >= 3);
 }
